@@ -92,8 +92,18 @@ def load_known():
     return json.load(open(p))
 
 
+# the front end refusing a construct is never a verdict about the property (exit 2), whatever words the quoted
+# source text happens to contain
+FRONTEND = ['not supported', 'does not yet support', 'unsupported', 'not yet supported', 'does not support',
+            'not yet implemented', 'unimplemented feature']
+
+
 def classify(msg):
     ml = msg.lower()
+    head = ml.split('\n')[0][:200]
+    for u in FRONTEND:
+        if u in head:
+            return 'frontend'
     for u in UNDECIDED:
         if u in ml:
             return 'undecided'
